@@ -46,9 +46,10 @@ const (
 	FWriteEROFS   = "write.erofs"
 	FWriteTorn    = "write.torn" // a prefix persists, then the error
 	FReadDirEIO   = "readdir.eio"
+	FSyncEIO      = "fsync.eio"
 )
 
-var AllDiskFaults = []string{FStatEACCES, FOpenVanished, FOpenEACCES, FOpenEMFILE, FReadEIO, FReadShort, FWriteENOSPC, FWriteEROFS, FWriteTorn, FReadDirEIO}
+var AllDiskFaults = []string{FStatEACCES, FOpenVanished, FOpenEACCES, FOpenEMFILE, FReadEIO, FReadShort, FWriteENOSPC, FWriteEROFS, FWriteTorn, FReadDirEIO, FSyncEIO}
 
 func NewDisk(w *World) *Disk {
 	d := &Disk{w: w, nodes: map[string]*node{"/": {dir: true, perm: 0o755}}, Enabled: map[string]bool{}, Rate: 6, Ops: map[string]int{}}
@@ -84,6 +85,40 @@ func (d *Disk) Put(p string, data []byte) {
 }
 
 func (d *Disk) Remove(p string) { delete(d.nodes, clean(p)) }
+
+// Mkdir creates one directory (parent must exist).
+func (d *Disk) Mkdir(p string) error {
+	cp := clean(p)
+	if _, ok := d.nodes[cp]; ok {
+		return perr("mkdir", p, syscall.EEXIST)
+	}
+	parent, ok := d.nodes[path.Dir(cp)]
+	if !ok {
+		return perr("mkdir", p, syscall.ENOENT)
+	}
+	if !parent.dir {
+		return perr("mkdir", p, syscall.ENOTDIR)
+	}
+	d.nodes[cp] = &node{dir: true, perm: 0o755}
+	return nil
+}
+
+// Rename moves a file.
+func (d *Disk) Rename(from, to string) error {
+	n, ok := d.nodes[clean(from)]
+	if !ok {
+		return perr("rename", from, syscall.ENOENT)
+	}
+	if _, ok := d.nodes[path.Dir(clean(to))]; !ok {
+		return perr("rename", to, syscall.ENOENT)
+	}
+	delete(d.nodes, clean(from))
+	d.nodes[clean(to)] = n
+	return nil
+}
+
+// Exists reports whether a path exists (oracle side and os.Remove).
+func (d *Disk) Exists(p string) bool { _, ok := d.nodes[clean(p)]; return ok }
 
 // Peek returns the current content of a file without any fault (oracle side).
 func (d *Disk) Peek(p string) ([]byte, bool) {
@@ -166,6 +201,7 @@ type SimFile struct {
 	closed bool
 	reads  int
 	write  bool
+	appendMode bool
 }
 
 func (d *Disk) Open(p string) (*SimFile, error) {
@@ -235,6 +271,109 @@ func (f *SimFile) Read(b []byte) (int, error) {
 	f.off += n
 	return n, nil
 }
+
+// OpenFile opens with flags (POSIX subset: O_RDONLY/O_WRONLY/O_RDWR, O_CREATE, O_TRUNC, O_APPEND, O_EXCL).
+func (d *Disk) OpenFile(p string, flag int, perm fs.FileMode) (*SimFile, error) {
+	const (
+		oWR     = 0x1
+		oRDWR   = 0x2
+		oCREATE = 0x40
+		oEXCL   = 0x80
+		oTRUNC  = 0x200
+		oAPPEND = 0x400
+	)
+	writing := flag&(oWR|oRDWR) != 0
+	if !writing {
+		return d.Open(p)
+	}
+	d.Ops["open-w"]++
+	cp := clean(p)
+	n, exists := d.nodes[cp]
+	if exists && flag&oEXCL != 0 && flag&oCREATE != 0 {
+		return nil, perr("open", p, syscall.EEXIST)
+	}
+	if !exists {
+		if flag&oCREATE == 0 {
+			return nil, perr("open", p, syscall.ENOENT)
+		}
+		parent, ok := d.nodes[path.Dir(cp)]
+		if !ok {
+			return nil, perr("open", p, syscall.ENOENT)
+		}
+		if !parent.dir {
+			return nil, perr("open", p, syscall.ENOTDIR)
+		}
+	} else if n.dir {
+		return nil, perr("open", p, syscall.EISDIR)
+	}
+	if d.fire(FWriteEROFS) {
+		return nil, perr("open", p, syscall.EROFS)
+	}
+	if d.fire(FOpenEACCES) {
+		return nil, perr("open", p, syscall.EACCES)
+	}
+	if d.fire(FOpenEMFILE) {
+		return nil, perr("open", p, syscall.EMFILE)
+	}
+	if !exists {
+		n = &node{perm: perm}
+		d.nodes[cp] = n
+	}
+	if flag&oTRUNC != 0 {
+		n.data = nil
+	}
+	f := &SimFile{d: d, n: n, Path: cp, write: true, appendMode: flag&oAPPEND != 0}
+	return f, nil
+}
+
+func (f *SimFile) Write(b []byte) (int, error) {
+	d := f.d
+	d.Ops["write"]++
+	if f.closed {
+		return 0, perr("write", f.Path, fs.ErrClosed)
+	}
+	if !f.write {
+		return 0, perr("write", f.Path, syscall.EBADF)
+	}
+	if d.fire(FWriteENOSPC) {
+		return 0, perr("write", f.Path, syscall.ENOSPC)
+	}
+	k := len(b)
+	var ferr error
+	if len(b) > 1 && d.fire(FWriteTorn) {
+		k = 1 + d.w.T.Draw(len(b)-1)
+		ferr = perr("write", f.Path, syscall.ENOSPC)
+	}
+	if f.appendMode {
+		f.off = len(f.n.data)
+	}
+	for len(f.n.data) < f.off {
+		f.n.data = append(f.n.data, 0)
+	}
+	f.n.data = append(f.n.data[:f.off], append(append([]byte{}, b[:k]...), tailFrom(f.n.data, f.off+k)...)...)
+	f.off += k
+	return k, ferr
+}
+
+func tailFrom(b []byte, i int) []byte {
+	if i >= len(b) {
+		return nil
+	}
+	return b[i:]
+}
+
+func (f *SimFile) Sync() error {
+	f.d.Ops["fsync"]++
+	if f.closed {
+		return perr("sync", f.Path, fs.ErrClosed)
+	}
+	if f.d.fire(FSyncEIO) {
+		return perr("sync", f.Path, syscall.EIO)
+	}
+	return nil
+}
+
+func (f *SimFile) Info() fs.FileInfo { return SimInfo{name: path.Base(f.Path), n: f.n} }
 
 func (f *SimFile) Close() error {
 	if f.closed {
